@@ -17,6 +17,9 @@ pub enum Sc {
     Mesh { label: String, mesh: M },
     Box { w: f64, h: f64, d: f64 },
     Cylinder { r: f64, h: f64, steps: usize },
+    /// A small mesh living in a huge vertex buffer: explicit vertex `i` sits at buffer index
+    /// `ids[i]`, every other slot of the `n_vertices` long buffer is an unreferenced vertex.
+    Sparse { label: String, mesh: M, ids: Vec<u32>, n_vertices: usize },
     Voxels { label: String, cells: Vec<[i32; 3]> },
     Chains { label: String, branching: bool, pairs: Vec<[u32; 2]> },
 }
@@ -208,10 +211,49 @@ fn gen_structured(rng: &mut Rng, tier: Tier) -> Sc {
     Sc::Mesh { label, mesh: m }
 }
 
+fn expand_sparse(mesh: &M, ids: &[u32], n_vertices: usize) -> M {
+    let mut v: Vec<[f64; 3]> = (0..n_vertices).map(|k| [1.0e4 + k as f64, 7.0, -3.0]).collect();
+    for (i, &id) in ids.iter().enumerate() {
+        v[id as usize] = mesh.v[i];
+    }
+    let f = mesh.f.iter().map(|f| [ids[f[0] as usize], ids[f[1] as usize], ids[f[2] as usize]]).collect();
+    M { v, f }
+}
+
+fn gen_sparse(rng: &mut Rng) -> Sc {
+    let base = match gen_small_arbitrary(rng) {
+        Sc::Mesh { mesh, .. } => mesh.compact(),
+        _ => unreachable!(),
+    };
+    let n_vertices = *rng.pick(&[65_535usize, 65_536, 65_537, 65_538, 66_000, 70_000, 100_000, 131_073]);
+    // ids: distinct, a mix of the lowest, the highest and arbitrary slots
+    let mut set = BTreeSet::new();
+    while set.len() < base.v.len() {
+        let id = match rng.below(3) {
+            0 => rng.below(8),
+            1 => n_vertices - 1 - rng.below(8),
+            _ => rng.below(n_vertices),
+        };
+        set.insert(id as u32);
+    }
+    let mut ids: Vec<u32> = set.into_iter().collect();
+    rng.shuffle(&mut ids);
+    Sc::Sparse { label: "small-mesh-in-huge-vertex-buffer".into(), mesh: base, ids, n_vertices }
+}
+
 fn gen_voxels(rng: &mut Rng, tier: Tier) -> Sc {
     let max_side = if tier == Tier::Quick { 8 } else { 12 };
     let side = 2 + rng.below(max_side - 1) as i32;
-    let off = [rng.range(-20, 5) as i32, rng.range(-20, 5) as i32, rng.range(-20, 5) as i32];
+    // offsets: small, or far out (around powers of two, where a packed or narrowed key would wrap)
+    let far = |rng: &mut Rng| -> i32 {
+        match rng.below(6) {
+            0 | 1 | 2 => rng.range(-20, 5) as i32,
+            3 => (*rng.pick(&[1i64 << 20, -(1i64 << 20), 1i64 << 21, -(1i64 << 21), 1i64 << 16, -(1i64 << 16)]) + rng.range(-6, 2)) as i32,
+            4 => (*rng.pick(&[1i64 << 30, -(1i64 << 30), (1i64 << 31) - 40, -(1i64 << 31) + 40]) + rng.range(-6, 2)) as i32,
+            _ => rng.range(-2_000_000, 2_000_000) as i32,
+        }
+    };
+    let off = [far(rng), far(rng), far(rng)];
     let mut cells: Vec<[i32; 3]> = Vec::new();
     let label;
     match rng.below(4) {
@@ -753,7 +795,8 @@ impl Property for C12 {
     }
 
     fn generate(&self, rng: &mut Rng, tier: Tier) -> Sc {
-        match rng.weighted(&[30, 30, 6, 6, 14, 14]) {
+        match rng.weighted(&[30, 30, 6, 6, 14, 14, 1]) {
+            6 => gen_sparse(rng),
             0 => gen_small_arbitrary(rng),
             1 => gen_structured(rng, tier),
             2 => Sc::Box { w: rng.log_uniform(0.01, 100.0), h: rng.log_uniform(0.01, 100.0), d: rng.log_uniform(0.01, 100.0) },
@@ -766,6 +809,7 @@ impl Property for C12 {
     fn swarm(&self, rng: &mut Rng, sc: &Sc) -> Swarm {
         let small = match sc {
             Sc::Mesh { mesh, .. } => mesh.f.len() <= 20,
+            Sc::Sparse { .. } => false,
             Sc::Box { .. } => true,
             Sc::Cylinder { steps, .. } => *steps <= 10,
             Sc::Voxels { cells, .. } => cells.len() <= 60,
@@ -781,6 +825,7 @@ impl Property for C12 {
     fn vectors(&self, rng: &mut Rng, tier: Tier, sc: &Sc) -> usize {
         match sc {
             Sc::Chains { .. } => 1,
+            Sc::Sparse { .. } => 2,
             Sc::Mesh { mesh, .. } if mesh.f.len() > 300 => 2,
             _ => match tier {
                 Tier::Quick => 4 + rng.below(5),
@@ -794,6 +839,14 @@ impl Property for C12 {
             Sc::Mesh { mesh, .. } => {
                 let built = sim.op("Mesh::new", 1_000_000, || to_mesh(mesh));
                 match built {
+                    OpResult::Done(me) => Obs::Mesh(Box::new(observe_mesh(sim, &me, false))),
+                    OpResult::Panic(m) => Obs::Construct(m),
+                    OpResult::Budget(_) => Obs::Construct("budget".into()),
+                }
+            }
+            Sc::Sparse { mesh, ids, n_vertices, .. } => {
+                let full = expand_sparse(mesh, ids, *n_vertices);
+                match sim.op("Mesh::new", 1_000_000, || to_mesh(&full)) {
                     OpResult::Done(me) => Obs::Mesh(Box::new(observe_mesh(sim, &me, false))),
                     OpResult::Panic(m) => Obs::Construct(m),
                     OpResult::Budget(_) => Obs::Construct("budget".into()),
@@ -829,7 +882,10 @@ impl Property for C12 {
     fn judge(&self, sc: &Sc, runs: &[VectorRun<Obs>], stats: &mut Stats) -> Vec<Violation> {
         let mut out = Vec::new();
         match sc {
-            Sc::Mesh { .. } | Sc::Box { .. } | Sc::Cylinder { .. } => {
+            Sc::Mesh { .. } | Sc::Sparse { .. } | Sc::Box { .. } | Sc::Cylinder { .. } => {
+                if matches!(sc, Sc::Sparse { .. }) {
+                    stats.bump("probe:vertex-index-above-65535");
+                }
                 let mut canon: Vec<Option<String>> = Vec::new();
                 for (vi, r) in runs.iter().enumerate() {
                     match &r.obs {
@@ -1039,6 +1095,24 @@ impl Property for C12 {
                     out.push(Sc::Mesh { label: label.clone(), mesh: M { v: simple, f: mesh.f.clone() } });
                 }
             }
+            Sc::Sparse { label, mesh, ids, n_vertices } => {
+                let top = ids.iter().copied().max().unwrap_or(0) as usize + 1;
+                for n in [top, (top + n_vertices) / 2, n_vertices - 1] {
+                    if n >= top && n < *n_vertices {
+                        out.push(Sc::Sparse { label: label.clone(), mesh: mesh.clone(), ids: ids.clone(), n_vertices: n });
+                    }
+                }
+                // fewer faces (ids of dropped vertices go too)
+                for f in chunk_removals(&mesh.f, 1) {
+                    let sub = M { v: mesh.v.clone(), f };
+                    let used: BTreeSet<u32> = sub.f.iter().flat_map(|x| x.iter().copied()).collect();
+                    let keep: Vec<u32> = used.into_iter().collect();
+                    let map: BTreeMap<u32, u32> = keep.iter().enumerate().map(|(n, &o)| (o, n as u32)).collect();
+                    let m2 = M { v: keep.iter().map(|&o| sub.v[o as usize]).collect(), f: sub.f.iter().map(|x| [map[&x[0]], map[&x[1]], map[&x[2]]]).collect() };
+                    let ids2 = keep.iter().map(|&o| ids[o as usize]).collect();
+                    out.push(Sc::Sparse { label: label.clone(), mesh: m2, ids: ids2, n_vertices: *n_vertices });
+                }
+            }
             Sc::Box { w, h, d } => {
                 if (*w, *h, *d) != (1.0, 1.0, 1.0) {
                     out.push(Sc::Box { w: 1.0, h: 1.0, d: 1.0 });
@@ -1093,6 +1167,7 @@ impl Property for C12 {
                     fp.push("mesh:manifold-consistent".into());
                 }
             }
+            Sc::Sparse { .. } => fp.push("mesh:huge-vertex-buffer".into()),
             Sc::Box { .. } => fp.push("primitive:box".into()),
             Sc::Cylinder { .. } => fp.push("primitive:cylinder".into()),
             Sc::Voxels { .. } => fp.push("voxels".into()),
@@ -1105,6 +1180,7 @@ impl Property for C12 {
         match sc {
             Sc::Mesh { mesh, .. } => mesh.f.len() >= 2,
             Sc::Box { .. } | Sc::Cylinder { .. } => true,
+            Sc::Sparse { mesh, .. } => mesh.f.len() >= 2,
             Sc::Voxels { cells, .. } => cells.len() >= 2,
             Sc::Chains { pairs, .. } => pairs.len() >= 2,
         }
